@@ -653,7 +653,7 @@ def run(ctx):
         "op_result_histogram": dict(tot_ops),
         "histories_decided_by_verified_lincheck": sum(sum(s["verdicts"].values()) for s in stats.values()),
         "samples": [by_shard[shard_of[min(variants)]][0]] if variants else [],
-        "modelled": "cds::intrusive::MichaelList<cds::gc::HP> (search with helping, link_node, unlink_node, insert_at, update_at, erase_at, unlink_at, extract_at, find_at, get_at, HP guard traffic) [theorems]; cds::intrusive::LazyList<cds::gc::HP> (search, node spin locks, validate, link_node, unlink_node, all *_at) [theorems] and cds::intrusive::IterableList<cds::gc::HP> (search, inserting_search, find_prev, link_data, unlink_data, all *_at) [LazyList: theorems lazy_sorted_nodup, lazy_updates_linearizable_partial; IterableList: refutation iter_sorted_nodup_refuted]",
+        "modelled": "cds::intrusive::MichaelList<cds::gc::HP> (search with helping, link_node, unlink_node, insert_at, update_at, erase_at, unlink_at, extract_at, find_at, get_at, HP guard traffic) [theorems]; cds::intrusive::LazyList<cds::gc::HP> (search, node spin locks, validate, link_node, unlink_node, all *_at) [theorems] and cds::intrusive::IterableList<cds::gc::HP> (search, inserting_search, find_prev, link_data, unlink_data, all *_at) [LazyList: theorems lazy_sorted_nodup, lazy_linearizable, lazy_quiescent_count; IterableList: refutation iter_sorted_nodup_refuted]",
     })
     ctx.coverage.update(stepinfo)
     hpinfo = run_hp_copy(ctx)
@@ -665,6 +665,6 @@ def run(ctx):
     return ctx.finish(vcheck.STD_TRUSTED + ["hook layer: khizmax_libcds_verif::atomic<T>, baton scheduler, event log (hooks/include)", "ocaml/lincheck_main.ml (text parser around the verified lincheck)", "harness/C13 adapters: translation of each API call into the spec vocabulary (`sp` records)"],
                       ["sequential consistency: memory_order arguments are not modelled", "compare_exchange_weak never fails spuriously under the hook",
                        "smr_safe (DESIGN 4): the step models allocate node / item ids from never-reusing allocators; that no node is recycled while a guard can reach it is the conclusion of the C01 theorems, not of C13 (and the open known finding hp-guard-copy-downward-michael-search shows a schedule of the real cds::gc::HP in which it fails for MichaelList::search)",
-                       "theorems for every schedule: step model of cds::intrusive::MichaelList<gc::HP> (sorted / no duplicate key at every step, full linearizability incl. reads); step model of cds::intrusive::LazyList<gc::HP> (no duplicate key at every step, linearizability of the modifying operations only: failed operations and contains/find need helping and are not covered); IterableList<HP>: step model tied by correspondence, property REFUTED (C13_iter_sorted_nodup_refuted, known finding iterlist-null-prev-aba-find-prev-stale); every other variant: observable correspondence only",
+                       "theorems for every schedule: step model of cds::intrusive::MichaelList<gc::HP> (sorted / no duplicate key at every step, full linearizability incl. reads, quiescent corollaries incl. item counter, and the same for searches that start at a permanent anchor node = the split-list bucket-head calling convention); step model of cds::intrusive::LazyList<gc::HP> (no duplicate key at every step, full linearizability incl. reads with helping, quiescent corollaries incl. item counter); IterableList<HP>: step model tied by correspondence, property REFUTED (C13_iter_sorted_nodup_refuted, known finding iterlist-null-prev-aba-find-prev-stale); every other variant: observable correspondence only",
                        "step and observable correspondence are sampling (every history sampled is decided exactly by the verified lincheck)",
                        "a failed unlink( val ) is not an operation of the sequential set (it fails also when the list holds another item with that key): skipped in histories, its result checked directly (an item that was never linked must not be unlinked)"])
